@@ -148,8 +148,9 @@ Next ==
                   v == Judge(st, rec, post, gh, gh2)
                   d == DriftOf(st, rec, post)
                   c == Covers(st, rec, post, gh, gh2)
-              IN  /\ st' = post
-                  /\ gh' = gh2
+              IN  \* a branch record was executed on a discarded copy of the state: it is judged, the trace does not advance
+                  /\ st' = IF rec.args.branch THEN st ELSE post
+                  /\ gh' = IF rec.args.branch THEN gh ELSE gh2
                   /\ tr' = tr
                   /\ l' = l + 1
                   /\ \A x \in v : PrintT("VIOL " \o ToJson([trace |-> tr, i |-> rec.i, ev |-> rec.ev, prop |-> x.p, msg |-> x.m, kf |-> x.kf]))
